@@ -19,7 +19,7 @@ def render_inline_reference(model: Reference) -> str:
     # settings are ignored for inline ref
     if len(model.col2) > 1:
         raise DBMLError('Cannot render DBML: composite ref cannot be inline')
-    table_name = get_full_name_for_dbml(model.col2[0].table)
+    table_name = get_full_name_for_dbml(model.table2)
     return f'ref: {model.type} {table_name}."{model.col2[0].name}"'
 
 
